@@ -336,11 +336,12 @@ void prop(Src& s, Ctx& ctx) {
     std::string desc = std::string(link.name) + " frames=" + std::to_string(nframes) + " malformed=" + std::to_string(nmal) + (mode == 2 ? " filter='" + filter + "'" : "");
     if (ctx.logging()) { ctx.log(desc); for (const Frame& f : frames) ctx.log("  frame " + hex(f.bytes, 80) + (f.parses ? " -> " + f.chain : " (does not parse)")); }
 
-    for (unsigned style = 0; style < 3; ++style) {
+    unsigned k1 = 1 + (unsigned)s.range(0, 3), k2 = 1 + (unsigned)s.range(0, 2);
+    for (unsigned style = 0; style < 4; ++style) {
         std::vector<uint8_t> keep;
         FILE* fp = mem_file(image, keep);
         std::vector<Seen> got;
-        static const char* STYLE[] = {"next_packet", "sniff_loop", "range-iteration"};
+        static const char* STYLE[] = {"next_packet", "sniff_loop", "range-iteration", "bounded-sniff_loops-then-iteration"};
         bool ctor_failed = false;
         try {
             std::unique_ptr<FileSniffer> sn;
@@ -369,11 +370,26 @@ void prop(Src& s, Ctx& ctx) {
                     got.push_back({(uint32_t)pk.timestamp().seconds(), (uint32_t)pk.timestamp().microseconds(), layer_chain(*pk.pdu())});
                     return ++guard <= nframes + 5;
                 });
-            } else {
+            } else if (style == 2) {
                 for (Packet& pk : *sn) {
                     got.push_back({(uint32_t)pk.timestamp().seconds(), (uint32_t)pk.timestamp().microseconds(), layer_chain(*pk.pdu())});
                     if (++guard > nframes + 5) break;
                 }
+            } else {
+                // two bounded loops (max_packets), then the rest through iteration: no frame may be lost in between
+                auto cb = [&](Packet& pk) -> bool {
+                    got.push_back({(uint32_t)pk.timestamp().seconds(), (uint32_t)pk.timestamp().microseconds(), layer_chain(*pk.pdu())});
+                    return true;
+                };
+                sn->sniff_loop(cb, k1);
+                if (got.size() == k1) sn->sniff_loop(cb, k2);
+                if (got.size() == k1 + k2) {
+                    for (Packet& pk : *sn) {
+                        got.push_back({(uint32_t)pk.timestamp().seconds(), (uint32_t)pk.timestamp().microseconds(), layer_chain(*pk.pdu())});
+                        if (++guard > nframes + 5) break;
+                    }
+                }
+                ctx.label("bounded-sniff-loop");
             }
         } catch (const PropFail&) {
             throw;
